@@ -1,4 +1,14 @@
 CHECKS = [
+    dict(id='C01',
+         text='Metamorphic search: each generated molecule (corpus, curated, repository literals, constructive and symmetric '
+              'constructions with drawn stereo labels) is re-described by rebuild with drawn numbering/insertion order, '
+              'copy+remap, the random writer in 5 styles and an RDKit random Kekule spelling; canonical string, ==, hash, '
+              'format variants, Morgan partition and written order must agree. Claimed-domain membership is decided by an '
+              'independent orbit oracle. Exploration: no claim beyond the cases generated.',
+         note='Trusted: orbit/automorphism oracle (vf/oracles/wl.py), RDKit as the second writer, the rebuild operator '
+              '(labels read via _translate_*_sign, parity-checked in C12). Genuine canonicaliser defects outside the two '
+              'documented gaps are listed in known_findings.json with independent structural detectors.',
+         technique='metamorphic property-based testing (Hypothesis) with an independent symmetry oracle'),
     dict(id='C18',
          text='Exhaustive enumeration of the finite domain (118 elements x all tabulated isotopes + unspecified x charge '
               '-4..+4 x radical): lookups against a literal standard table, table-key consistency, mass computability, '
